@@ -163,7 +163,7 @@ pub fn run(ctx: &mut Ctx) {
             return;
         }
         let mut rng = ctx.rng.fork();
-        let t = if i % 4001 == 7 && !ctx.miri { gen::big_doc(&mut rng) } else { gen::doc(&mut rng, if i % 4 == 0 { &gen::DocCfg { max_depth: 7, max_fan: 4, nonfinite: false, container_p: 6 } } else { &gen::DOC_FINITE }) };
+        let t = if i % 4001 == 7 && !ctx.miri { gen::big_doc(&mut rng, true) } else { gen::doc(&mut rng, if i % 4 == 0 { &gen::DocCfg { max_depth: 7, max_fan: 4, nonfinite: false, container_p: 6 } } else { &gen::DOC_FINITE }) };
         check_one(ctx, &t);
         ctx.sample(|| t.show());
     }
